@@ -304,6 +304,10 @@ func (w *world) Run(t *rt.Tape, trace bool) *core.Result {
 			batches = append(batches, drawSize(t, maxN))
 		}
 		realBase := t.Choose(rt.SGen, 4) == 0
+		// one case in six sets the extension up over the library's random OT (itself
+		// IKNP over Chou-Orlandi): a base OT whose Send replaces the caller's labels
+		// by its own pads
+		rotBase := t.Choose(rt.SGen, 6) == 0
 		mal := !bits && t.Choose(rt.SGen, 2) == 1
 		smp.Scenario = map[bool]string{false: "raw IKNP Send/Receive (label form)", true: "raw IKNP SendBits/ReceiveBits (packed-bit form)"}[bits]
 		if mal {
@@ -311,6 +315,9 @@ func (w *world) Run(t *rt.Tape, trace bool) *core.Result {
 		}
 		smp.Batches = batches
 		smp.Base = map[bool]string{true: "real Chou-Orlandi base OTs", false: "stub base OT (labels in clear)"}[realBase]
+		if rotBase {
+			smp.Base = "random OT (ot.ROT over Chou-Orlandi) as base OT"
+		}
 		choices := make([][]bool, nb)
 		sent := make([][]ot.Label, nb)
 		recv := make([][]ot.Label, nb)
@@ -327,6 +334,9 @@ func (w *world) Run(t *rt.Tape, trace bool) *core.Result {
 			l := mk()
 			rt.GoParty("S", "sender", func() {
 				base := newBase(rS, realBase)
+				if rotBase {
+					base = ot.NewROT(ot.NewCO(rS), rS, false, false)
+				}
 				if err := base.InitReceiver(l.s); err != nil {
 					fail("sender-error", "base InitReceiver: "+err.Error())
 					return
@@ -353,6 +363,9 @@ func (w *world) Run(t *rt.Tape, trace bool) *core.Result {
 			})
 			rt.GoParty("R", "receiver", func() {
 				base := newBase(rR, realBase)
+				if rotBase {
+					base = ot.NewROT(ot.NewCO(rR), rR, false, false)
+				}
 				if err := base.InitSender(l.r); err != nil {
 					fail("receiver-error", "base InitSender: "+err.Error())
 					return
